@@ -3,9 +3,9 @@ package props
 import "verif/internal/drv"
 
 func init() {
-	goLib("C16", 16, drv.ChildOpts{WallSec: 7200, CPUSec: 6000, Env: []string{"GOGC=400"}, CrashIsViol: true, CrashSigPfx: "crash:"}, drv.Spec{
+	goLib("C16", 16, drv.ChildOpts{WallSec: 7200, CPUSec: 6000, CrashIsViol: true, CrashSigPfx: "crash:"}, drv.Spec{
 		Level: "exploration",
-		Rule: "valid streams = payload class (empty, 1 byte, text, runs, random, repeat at ~32 KiB distance, mixed) x encoder (compress/flate and compress/zlib at levels -2..9 with random Write/Flush patterns and preset dictionaries; hand-assembled stored/fixed/dynamic blocks with random valid trees, empty blocks in the middle and at the end, odd bit alignments) x format (raw DEFLATE, zlib); " +
+		Rule: "valid streams = payload class (empty, 1 byte, text, runs, random, repeat at ~32 KiB distance, mixed) x encoder (compress/flate and compress/zlib at levels -2..9 with random Write/Flush patterns and preset dictionaries; hand-assembled stored/fixed/dynamic blocks with random valid trees, empty blocks in the middle and at the end, odd bit alignments, literal-only first Huffman blocks longer than 64 KiB that are longer than their data) x format (raw DEFLATE, zlib); " +
 			"limits = every limit from SmallestValidMaxEncodedLen to len(stream)+2 for streams <= 2048 bytes (exhaustive per stream: counters streams_exhaustive_limits / limits_in_exhaustive_sweeps), block-boundary-, symbol-boundary-, 65540- and end-targeted plus random limits for longer ones; every limit is cut once with a nil writer and once with a writer; " +
 			"evaluations = successful cuts checked against compress/flate|zlib and the original payload, plus robustness calls; " +
 			"distinct = (format, block-type sequence of the input from the monitor's own block scanner [+dict when a match reaches into the preset dictionary], path that answered [whole, block-boundary, stored-shorten, huffman-cut-F/D, fallback-single-stored, fallback-empty-fixed] inferred from the output's first block header and length, position class of the limit in the input [first/later block, block type, header/first symbols/middle/last symbols/end-of-block code, exact, beyond, limit <= 5]) tuples of checked successful cuts, plus (format, input kind, outcome) of robustness calls",
